@@ -97,8 +97,8 @@ func summary(h string, st *interp.Stats) {
 	for _, n := range st.ViolCount {
 		nv += n
 	}
-	fmt.Printf("%-28s paths=%d vacuous=%d inconclusive=%d branches=%d choices=%d queries=%d (sat %d unsat %d unknown %d) asserts=%d+%d triv wall=%v solver=%v instrs=%d leftover=%d violations=%d/%d keys capped=%v timedout=%v\n",
-		h, st.Paths, st.Vacuous, st.Inconclusive, st.Branches, st.Choices, st.Queries, st.QSat, st.QUnsat, st.QUnknown,
+	fmt.Printf("%-28s paths=%d vacuous=%d inconclusive=%d branches=%d (repaired %d) choices=%d queries=%d (sat %d unsat %d unknown %d) asserts=%d+%d triv wall=%v solver=%v instrs=%d leftover=%d violations=%d/%d keys capped=%v timedout=%v\n",
+		h, st.Paths, st.Vacuous, st.Inconclusive, st.Branches, st.Repaired, st.Choices, st.Queries, st.QSat, st.QUnsat, st.QUnknown,
 		st.Asserts, st.AssertsTriv, st.Wall.Round(time.Millisecond), st.SolverTime.Round(time.Millisecond), st.Instrs, st.Leftover, nv, len(st.ViolCount), st.PathCapHit, st.TimedOut)
 	var keys []string
 	for k := range st.ViolCount {
